@@ -274,18 +274,34 @@ def flat_case(tdir, ncx, n, D, cs):
         obs["guess"] = [0, 0, 0]
     nsync = 1 if ncx > 1 else 0
     kw = dict(nc=ncx, ns=n, fs=FS, s2v=0.5, nsync=nsync)
+
+    def eff_nsync(size):
+        # the constructor's own rule for a meta-less file: in the 385-channel branch of the size test
+        # (770 | size, 768 does not) `nsync = nsync or 1` — a nsync=0 passed by the caller becomes 1
+        return nsync or (1 if (size % 768 != 0 and size % 770 == 0) else 0)
+
+    def scaled(size):
+        w_ = D.astype(np.float32) * np.float32(0.5)
+        k = eff_nsync(size)
+        if k:
+            w_[:, -k:] = D[:, -k:]
+        return w_
     sr = spikeglx.Reader(b, **kw)
     ref = np.array(sr[:, :])
-    want = D.astype(np.float32) * np.float32(0.5)
-    if nsync:
-        want[:, -1] = D[:, -1]
-    if tuple(sr.shape) != (n, ncx) or not np.array_equal(ref, want):
-        obs["problems"].append(("flat", "flat reader (s2v=0.5, nsync=%d) does not return the scaled samples" % nsync))
+    if tuple(sr.shape) != (n, ncx) or not np.array_equal(np.array(sr._raw[0:n]), D):
+        obs["problems"].append(("flat", "meta-less .bin reader does not expose the samples of the file"))
+    if not np.array_equal(ref, scaled(obs["size"])):
+        obs["problems"].append(("flat", "flat reader (s2v=0.5, nsync=%d, effective %d) does not return the scaled samples" % (
+            nsync, eff_nsync(obs["size"]))))
     out = sr.compress_file(keep_original=True, chunk_duration=cs / FS, n_threads=1)
     sc = spikeglx.Reader(out, **kw)
-    if tuple(sc.shape) != (n, ncx) or not np.array_equal(np.array(sc[:, :]), ref) or \
-            not np.array_equal(np.array(sc[1:n, :]), ref[1:n]):
-        obs["problems"].append(("flat", "meta-less .cbin reads differ from the meta-less .bin"))
+    # transparency: same shape and same stored samples through either file (the scaling of a meta-less reader
+    # follows the size rule of whichever file it was given, so scaled values are compared with that reader's own rule)
+    if tuple(sc.shape) != (n, ncx) or not np.array_equal(np.array(sc._raw[0:n]), D) or \
+            not np.array_equal(np.array(sc._raw[1:n]), np.array(sr._raw[1:n])):
+        obs["problems"].append(("flat", "meta-less .cbin reader does not expose the samples of the meta-less .bin"))
+    if not np.array_equal(np.array(sc[:, :]), scaled(Path(out).stat().st_size)):
+        obs["problems"].append(("flat", "flat .cbin reader (s2v=0.5, nsync=%d) does not return the scaled samples" % nsync))
     got = sc.decompress_file(keep_original=True, out=d / "rt.bin", n_threads=1)
     if Path(got).read_bytes() != D.tobytes():
         obs["problems"].append(("flat", "meta-less compress + decompress is not the original binary"))
@@ -308,7 +324,7 @@ def flat_case(tdir, ncx, n, D, cs):
         for f in (b, out):
             try:
                 r2 = spikeglx.Reader(f, **kw2)
-                res.append((1, int(r2.ns), tuple(r2.shape), np.array(r2[0:min(ns_a, n), :])))
+                res.append((1, int(r2.ns), tuple(r2.shape), np.array(r2._raw[0:min(ns_a, n)])))
                 r2.close()
             except ValueError:
                 res.append((0, 0, None, None))
@@ -317,7 +333,7 @@ def flat_case(tdir, ncx, n, D, cs):
             if res[0][2] != (ns_a, ncx) or res[1][2] != (ns_a, ncx):
                 obs["problems"].append(("flat", "without meta file and ns=%d announced (data: %d), Reader(.bin) exposes %s and "
                                         "Reader(.cbin) %s" % (ns_a, n, res[0][2], res[1][2])))
-            elif not np.array_equal(res[0][3], res[1][3]) or not np.array_equal(res[0][3], ref[0:ns_a]):
+            elif not np.array_equal(res[0][3], res[1][3]) or not np.array_equal(res[0][3], D[0:ns_a]):
                 obs["problems"].append(("flat", "without meta file and ns=%d announced, values differ between .bin and .cbin" % ns_a))
     for r in (sr, sc):
         r.close()
